@@ -717,7 +717,7 @@ func (pk *Packet) encodePubAckRelRecComp(buf *bytes.Buffer) error {
 		pb := mempool.GetBuffer()
 		defer mempool.PutBuffer(pb)
 		pk.Properties.Encode(pk.FixedHeader.Type, pk.Mods, pb, nb.Len())
-		if pk.ReasonCode >= ErrUnspecifiedError.Code || pb.Len() > 1 {
+		if pk.ReasonCode != CodeSuccess.Code || pb.Len() > 1 { // only reason 0x00 without properties may be omitted
 			nb.WriteByte(pk.ReasonCode)
 		}
 
